@@ -287,7 +287,7 @@ class XPath1Parser(Parser[ta.XPathTokenType]):
     def parse_occurrence(self, token: XPathToken) -> None:
         """Parse the occurrence for the current token."""
         if self.next_token.symbol in ('*', '+', '?'):
-            assert self.token is token
+            # The current token can be the last part of a composed token (e.g. xs:integer)
             token.occurrence = self.next_token.symbol
             self.advance()
             self.next_token.unexpected('*', '+', '?')
